@@ -210,6 +210,12 @@ impl MinCostFlowSolver {
             .maximal_formation_count()
             .unwrap_or(100) as UpperBound;
 
+        // arcs between activities must be able to carry every vehicle the head activity needs: a
+        // maintenance slot may host more vehicles than a formation may couple
+        let arc_upper_bound = maximal_formation_count_for_vehicle_type.max(
+            maintenance_slots.values().copied().max().unwrap_or(0) as UpperBound,
+        );
+
         let trip_node_count =
             self.network.service_nodes(vehicle_type).count() + self.network.depots_iter().count();
         // number of nodes in the flow network will be twice this number
@@ -333,17 +339,14 @@ impl MinCostFlowSolver {
                     + idle_time_cost;
 
                 cost_overflow_checker = cost_overflow_checker
-                    .checked_add(
-                        cost.checked_mul(maximal_formation_count_for_vehicle_type)
-                            .unwrap(),
-                    )
+                    .checked_add(cost.checked_mul(arc_upper_bound).unwrap())
                     .expect("overflow in cost_overflow_checker");
 
                 edges.insert(
                     builder.add_edge(pred_right_rsnode, *left_rsnode),
                     EdgeLabel {
                         lower_bound: 0,
-                        upper_bound: maximal_formation_count_for_vehicle_type,
+                        upper_bound: arc_upper_bound,
                         cost,
                     },
                 );
